@@ -76,7 +76,11 @@ def rule_escape(ck: Check, repo: Repo, cg: CallGraph, esc: Escape) -> None:
                 r.instance(f"{name}:{exc}:{origin}", None)
                 continue
             ofn = origin.split("|")[0].strip()
-            nk = (exc, normal_origin(origin))
+            # the unguarded callers through which it leaves the origin function are part of the construct: a NEW call
+            # site that lets the same exception out is a new defect, not the recorded one
+            vias = sorted({g.rsplit(".", 1)[-1] if not g.startswith("reuse.vcs.") else "vcs" for g, ks in esc.esc.items()
+                           if key in ks and ks[key][0] == "via" and ks[key][1] == ofn})
+            nk = (exc, normal_origin(origin) + (" <- " + ",".join(vias) if vias else ""))
             per_key.setdefault(nk, []).append(name)
             chains.setdefault(nk, esc.witness_chain(q, key))
             r.instance(f"{name}:{exc}:{origin}", {"command": name, "exception": exc, "origin": origin}, q)
